@@ -134,15 +134,35 @@ def member_flags(ctx, s, parser, var, names_expected, final_mask_check=True):
             for c in tested or cs[-1:]:
                 name_of.setdefault(nm, set()).add(c)
         ok = bool(tested)
-        s.add("S-COVER", fn, "duplicate-test", "%s:%s" % (desc, "|".join(map(str, sorted(cs)))), sp, PROVED if ok else VIOLATION,
+        # a duplicate test against a flag that was looked up or computed (not a literal mask) cannot be matched to this
+        # arm's bit syntactically: not decided, rather than "missing"
+        computed = False
+        for f in facts:
+            v = f[1]
+            if isinstance(v, tuple) and v and v[0] == "bin" and v[1] == "BitAnd":
+                a_, b_ = v[2], v[3]
+                fl, m = (a_, b_) if (a_[0] == "phi" and a_[2] == ("local", k)) else ((b_, a_) if (b_[0] == "phi" and b_[2] == ("local", k)) else (None, None))
+                if fl is not None and m[0] != "const":
+                    computed = True
+        verdict = PROVED if ok else (UNDECIDED if computed else VIOLATION)
+        s.add("S-COVER", fn, "duplicate-test", "%s:%s" % (desc, "|".join(map(str, sorted(cs)))), sp, verdict,
               "the flag is set only after (flags & bit) != bit held for this arm's own bit" if ok else
-              "a member flag is set without its duplicate test: a repeated member silently overwrites the earlier one", b)
+              ("the duplicate test uses a flag value that is looked up or computed from the member: that it is this arm's bit is not decided"
+               if computed else
+               "a member flag is set without its duplicate test: a repeated member silently overwrites the earlier one"), b)
     if names_expected is not None:
         got = set(name_of)
         okn = got == names_expected
-        s.add("S-COVER", fn, "member-names", short, fn.sp, PROVED if okn else VIOLATION,
+        # names that are dispatched on but are not NIP-01 members are wrong; names that could not be tied to a flag site
+        # (table-driven or pattern-matched classification) leave the clause undecided
+        extra = got - names_expected
+        verdict = PROVED if okn else (VIOLATION if extra else UNDECIDED)
+        s.add("S-COVER", fn, "member-names", short, fn.sp, verdict,
               "dispatches on exactly %s" % sorted(n.decode().rstrip('"') for n in names_expected) if okn else
-              "member names handled: %s; expected %s" % (sorted(n.decode("latin1") for n in got), sorted(n.decode() for n in names_expected)))
+              ("member names handled: %s; expected %s" % (sorted(n.decode("latin1") for n in got), sorted(n.decode() for n in names_expected))
+               if extra else
+               "only %s could be tied to a flag site (the classification of member names is not a chain of literal comparisons): not decided"
+               % sorted(n.decode("latin1") for n in got)))
         # distinct flags for distinct names
         fl = [tuple(sorted(v)) for v in name_of.values()]
         okd = len(set(fl)) == len(fl)
